@@ -193,3 +193,28 @@ def named_root(b, op, depth=0):
     if len(ds) == 1 and ds[0][0] == "s" and ds[0][3]["rv"]["k"] == "use":
         return named_root(b, ds[0][3]["rv"]["a"], depth + 1)
     return None
+
+
+def loop_no_skip(ctx, rule, b, construct, must_bbs, what, header_pred=None):
+    """Every iteration of the loop around `must_bbs` passes one of them: from the loop's element-fetching call (the
+    in-cycle `next`-style call dominating the must-call) no path returns to that call without entering a must-call.
+    Early exits (return/break) are fine; a `continue` that drops an element is not."""
+    if not must_bbs:
+        return ctx.missing(rule, construct, "no call to guard (%s)" % what)
+    m = must_bbs[0]
+    heads = []
+    for bi, name, t in b.calls():
+        if not b.in_cycle(bi) or bi == m:
+            continue
+        f = flat(name)
+        if header_pred(f) if header_pred else (f.endswith("::next") or f.endswith("validation_error::next")):
+            if b.dominates(bi, m) and b.reachable_avoiding(m, [bi], []):
+                heads.append(bi)
+    if not heads:
+        return ctx.missing(rule, construct, "loop head (element fetch dominating the call, in the same cycle) not found (%s)" % what)
+    # innermost head = the one dominated by all the others
+    h = max(heads, key=lambda x: len(b.dominators().get(x) or ()))
+    start = call_succ(b, h)
+    p = b.witness_path(start, [h], must_bbs) if start is not None else None
+    return ctx.ob(rule, construct, p is None, what if p is None else "%s: an iteration can return to the loop head without it: %s" % (what, path_str(b, p)),
+                  where=b.where(h))
